@@ -141,16 +141,19 @@ def require_ok(r, what):
 # cargo
 # ----------------------------------------------------------------------------------------------
 
-def cargo_build(bins, profile="release", features=None, timeout=1800, crate_dir=HARNESS, jobs=None):
-    """Build harness binaries against the CURRENT /repo tree. Returns dict bin -> path."""
-    lock_src = os.path.join(REPO, "Cargo.lock")
+def cargo_build(crate, bins=None, features=None, timeout=2400, jobs=None, env=None):
+    """Build harness crate /verif/harness/<crate> (its own workspace, path dependency on /repo) against the CURRENT
+    /repo tree, release profile.  Returns dict bin -> path (bins defaults to [crate])."""
+    crate_dir = os.path.join(HARNESS, crate)
+    bins = bins or [crate]
+    lock = os.path.join(crate_dir, "Cargo.lock")
+    if not os.path.exists(lock) and os.path.exists(os.path.join(REPO, "Cargo.lock")):
+        shutil.copy(os.path.join(REPO, "Cargo.lock"), lock)
     e = dict(os.environ)
     e["CARGO_NET_OFFLINE"] = "true"
-    cmd = ["cargo", "build", "--offline"]
-    if profile == "release":
-        cmd.append("--release")
-    elif profile != "dev":
-        cmd += ["--profile", profile]
+    if env:
+        e.update(env)
+    cmd = ["cargo", "build", "--offline", "--release"]
     for b in bins:
         cmd += ["--bin", b]
     if features:
@@ -161,10 +164,9 @@ def cargo_build(bins, profile="release", features=None, timeout=1800, crate_dir=
     p = subprocess.run(cmd, cwd=crate_dir, env=e, stdout=subprocess.PIPE, stderr=subprocess.STDOUT, text=True,
                        timeout=timeout)
     if p.returncode != 0:
-        raise ToolError("cargo build failed:\n" + "\n".join(p.stdout.splitlines()[-80:]))
-    pdir = {"release": "release", "dev": "debug"}.get(profile, profile)
-    log("cargo build %s: %.1fs" % (",".join(bins), time.time() - t0))
-    return {b: os.path.join(crate_dir, "target", pdir, b) for b in bins}
+        raise ToolError("cargo build failed in %s:\n%s" % (crate_dir, "\n".join(p.stdout.splitlines()[-80:])))
+    log("cargo build %s: %.1fs" % (crate, time.time() - t0))
+    return {b: os.path.join(crate_dir, "target", "release", b) for b in bins}
 
 
 def run(cmd, timeout=600, cwd=None, env=None, input_=None, check=True):
